@@ -311,7 +311,8 @@ func ruleRC4() Rule {
 						for _, gd := range guardsOf(c.P, call, nil) {
 							for _, cj := range conj(gd.cond) {
 								be, ok := ast.Unparen(cj).(*ast.BinaryExpr)
-								if !ok || be.Op != token.EQL || gd.pos {
+								// the false branch of `==`, which guardsOf may hand over as `!=` known to hold
+								if !ok || !(be.Op == token.EQL && !gd.pos || be.Op == token.NEQ && gd.pos) {
 									continue
 								}
 								fx, fy := core.FieldOf(info, be.X), core.FieldOf(info, be.Y)
